@@ -761,6 +761,11 @@ def _r5(repo, L, idx, store: Func, roles):
                     tt = norm(t).replace(" ", "")
                     if tt in (f"{ixd}.get({nmv})", f"{nmv}in{ixd}") and v is False:
                         tested = True
+                    # the same test spelled with None:  idx.get(name) is None  (true)  /  idx.get(name) is not None  (false)
+                    if tt == f"{ixd}.get({nmv})isNone" and v is True:
+                        tested = True
+                    if tt == f"{ixd}.get({nmv})isnotNone" and v is False:
+                        tested = True
         if not tested:
             ok, why = False, "an index entry is stored on a path that did not test for an existing entry of the same name: a duplicate record silently replaces the first"
     if not ok and n_store > 0:
